@@ -46,11 +46,13 @@ var (
 // 根据Cache-Control的信息，获取s-maxage 或者max-age的值
 func getCacheMaxAge(header http.Header) int {
 	// 如果有设置cookie，则为不可缓存
-	if header.Get(elton.HeaderSetCookie) != "" {
+	// （需要判断所有的set-cookie，第一个值为空时后续的值也有可能非空）
+	if len(header.Values(elton.HeaderSetCookie)) != 0 {
 		return 0
 	}
 	// 如果没有设置cache-control，则不可缓存
-	cc := strings.Join(header.Values(elton.HeaderCacheControl), ",")
+	// cache-control的指令不区分大小写
+	cc := strings.ToLower(strings.Join(header.Values(elton.HeaderCacheControl), ","))
 	if cc == "" {
 		return 0
 	}
@@ -75,7 +77,10 @@ func getCacheMaxAge(header http.Header) int {
 	// 如果有设置了 age 字段，则最大缓存时长减少
 	if age := header.Get(headerAge); age != "" {
 		v, _ := strconv.Atoi(age)
-		maxAge -= v
+		// 无效的age（负数）不应增加缓存时长
+		if v > 0 {
+			maxAge -= v
+		}
 	}
 
 	return maxAge
